@@ -142,6 +142,21 @@ func (x *Exec) heapArr(st *State, class string, s *term.Sort) *T {
 	if x.Init != nil && !x.building {
 		if e, ok := x.Init.Extra[class]; ok {
 			a = e
+		} else if m := x.Init.Heap[class]; len(m) > 0 && len(m) <= 400 && x.wantsInitTable(class) {
+			// `attr init_tables <type name> ...` of the function under verification: the objects of
+			// these classes built by the package initialisers are part of the initial heap term, so
+			// that a load through a SYMBOLIC reference (e.g. the loop variable of a range over a
+			// table of pointers) still sees the constant rows
+			ks := make([]int64, 0, len(m))
+			for k := range m {
+				ks = append(ks, k)
+			}
+			sort.Slice(ks, func(i, j int) bool { return ks[i] < ks[j] })
+			for _, k := range ks {
+				if m[k].Sort == a.Sort.Elem {
+					a = term.Store(a, term.I(k), m[k])
+				}
+			}
 		}
 	}
 	st.Heap[class] = a
@@ -468,4 +483,18 @@ func sortedKeys(m map[string]*T) []string {
 	}
 	sort.Strings(ks)
 	return ks
+}
+
+// wantsInitTable: the contract of the function under verification asked for the init objects of
+// this class to be part of the initial heap (`attr init_tables T1 T2 ...`, matched as substrings).
+func (x *Exec) wantsInitTable(class string) bool {
+	if x.Spec == nil {
+		return false
+	}
+	for _, t := range strings.Fields(x.Spec.Attrs["init_tables"]) {
+		if strings.Contains(class, t) {
+			return true
+		}
+	}
+	return false
 }
